@@ -5,6 +5,17 @@ from concurrent.futures import ThreadPoolExecutor
 from common import tlc_or_die, write_ndjson, ToolError
 
 
+# the children of a node in TEXTUAL order (= evaluation order); every other key keeps its place after them.  (A tree that comes from the harness as JSON has its keys in
+# alphabetical order - args before o, init before size, a before c - so the order must not be taken from the dictionary: found in the last hours, see DESIGN 11.4)
+CHILD_ORDER = {'MCall': ['o', 'args'], 'Index': ['o', 'i'], 'SetIndex': ['o', 'i', 'e'], 'GetField': ['o'], 'SetField': ['o', 'e'], 'If': ['c', 'a', 'b'], 'While': ['c', 'b'],
+               'Array': ['size', 'init'], 'Object': ['parent', 'members'], 'Call': ['args'], 'Print': ['args'], 'Fun': ['body'], 'Block': ['es'], 'Top': ['es'], 'Let': ['e'], 'Assign': ['e']}
+
+
+def _ordered_items(e):
+    first = [k for k in CHILD_ORDER.get(e.get('t'), []) if k in e]
+    return [(k, e[k]) for k in first] + [(k, v) for k, v in e.items() if k not in first]
+
+
 def number(ast):
     """preorder numbering of AST nodes (textual position); returns a new tree"""
     c = [0]
@@ -14,7 +25,7 @@ def number(ast):
             if e.get('t') == 'Let' and 'e' in e:
                 # a let becomes visible after its initializer: number it after the initializer's nodes
                 out = {}
-                for k, v in e.items():
+                for k, v in _ordered_items(e):
                     if k != 'id' and not k.startswith('_'):
                         out[k] = go(v)
                 c[0] += 1
@@ -22,7 +33,7 @@ def number(ast):
                 return out
             c[0] += 1
             out = {'id': c[0]}
-            for k, v in e.items():
+            for k, v in _ordered_items(e):
                 if k != 'id' and not k.startswith('_'):
                     out[k] = go(v)
             return out
